@@ -21,4 +21,13 @@ def main(argv):
 
 
 if __name__ == '__main__':
-    sys.exit(main(sys.argv[1:]))
+    try:
+        rc = main(sys.argv[1:])
+    except SystemExit:
+        raise
+    except BaseException:     # never let a crash of the machinery look like a verdict
+        import traceback
+        traceback.print_exc()
+        print('HARNESS-ERROR unhandled exception in the check machinery')
+        rc = 3
+    sys.exit(rc)
